@@ -107,21 +107,32 @@ def audit_axioms(pid, theorems):
     return res
 
 
-def source_scan():
-    """no sorry / admit / axiom / native_decide / … in the Lean sources (comments excluded)"""
+def import_closure(pid):
+    """files under lean/TzVerif that Properties/<pid>.lean transitively imports"""
+    seen = []
+    todo = ["TzVerif.Properties." + pid]
+    while todo:
+        mod = todo.pop()
+        path = os.path.join(LEAN, *mod.split(".")) + ".lean"
+        if path in seen or not os.path.exists(path):
+            continue
+        seen.append(path)
+        for m in re.finditer(r"^import\s+(TzVerif[A-Za-z0-9_.]*)", open(path).read(), flags=re.M):
+            todo.append(m.group(1))
+    return seen
+
+
+def source_scan(pid):
+    """no sorry / admit / axiom / native_decide / … in the Lean sources this property rests on (comments excluded)"""
     bad = []
     pat = re.compile(r"\b(sorry|admit|native_decide|bv_decide|implemented_by|unsafe)\b|^\s*axiom\s|maxHeartbeats\s+0\b")
-    for dp, _, fns in os.walk(os.path.join(LEAN, "TzVerif")):
-        for fn in fns:
-            if not fn.endswith(".lean"):
-                continue
-            p = os.path.join(dp, fn)
-            src = open(p).read()
-            src = re.sub(r"/-.*?-/", "", src, flags=re.S)
-            for i, line in enumerate(src.splitlines()):
-                line = re.sub(r"--.*", "", line)
-                if pat.search(line):
-                    bad.append("%s:%d: %s" % (os.path.relpath(p, ROOT), i + 1, line.strip()[:120]))
+    for p in import_closure(pid):
+        src = open(p).read()
+        src = re.sub(r"/-.*?-/", "", src, flags=re.S)
+        for i, line in enumerate(src.splitlines()):
+            line = re.sub(r"--.*", "", line)
+            if pat.search(line):
+                bad.append("%s:%d: %s" % (os.path.relpath(p, ROOT), i + 1, line.strip()[:120]))
     return bad
 
 
@@ -301,7 +312,7 @@ def decide(pid, cfg, tier, seed, t0):
     p_ok, p_err = build_property(pid)
     theorems = cfg.get("theorems", [])
     audit = audit_axioms(pid, theorems) if p_ok else {t: (False, ["module did not build"]) for t in theorems}
-    scan = source_scan()
+    scan = source_scan(pid)
     undischarged = [t for t, (ok, _) in audit.items() if not ok]
     if not gen["ok"]:
         p_ok = False
